@@ -36,3 +36,6 @@ def run(ctx):
     from . import helpers_rules as H
     H.r16_1_purity(ctx, 'R03.9', roots=['yatiml.recognizer:Recognizer.recognize'], what='recognition (every candidate must see the same node)')
     R3.r08_14_verdict_is_a_set(ctx, 'R03.11')
+    # which recogniser decides for a class is part of "the most-derived match": a class without a recogniser of its own must not be
+    # judged by the one it inherits
+    S.r10_hooks(ctx, ids=('R03.12', 'R03.13', 'R03.14'), only_hooks={'_yatiml_recognize'})
